@@ -13,6 +13,7 @@ import (
 	"os"
 	"os/exec"
 	"path/filepath"
+	"runtime"
 	"runtime/pprof"
 	"sort"
 	"strconv"
@@ -126,6 +127,20 @@ func Start(id, level string) *Run {
 	if pf := os.Getenv("VERIF_PPROF"); pf != "" && !r.isChild {
 		f, _ := os.Create(pf)
 		pprof.StartCPUProfile(f)
+	}
+	if hf := os.Getenv("VERIF_HEAPPROF"); hf != "" {
+		go func() {
+			for {
+				time.Sleep(20 * time.Second)
+				runtime.GC()
+				f, _ := os.Create(hf)
+				pprof.Lookup("heap").WriteTo(f, 0)
+				f.Close()
+				g, _ := os.Create(hf + ".goroutines")
+				pprof.Lookup("goroutine").WriteTo(g, 1)
+				g.Close()
+			}
+		}()
 	}
 	return r
 }
